@@ -254,7 +254,7 @@ def run(tier, seed, proof):
     import concurrent.futures
     cases = list(gen_cases(tier, seed))
     ex = concurrent.futures.ThreadPoolExecutor(max_workers=common.NCPU)
-    outs = ex.map(lambda c: run_both(c[1]), cases)
+    outs = common.bounded_map(ex, lambda c: run_both(c[1]), cases, window=2 * common.NCPU)
     for (name, ops, tag), pre in zip(cases, outs):
         examine(name, ops, tier, seed, res, pre)
         res.nontrivial.add(tag)
